@@ -361,6 +361,42 @@ def boundary_scripts(path):
                         acts += [dict(name="Flush", e=2), dict(name="DropAll")]        # ... and the window update is lost
                         acts += [dict(name="Send", e=1, a=mss), dict(name="Send", e=1, a=mss // 2), dict(name="Settle", a=upd)]
                         scripts.append(dict(meta=dict(cfg=cfg, label="zero-window-%d-%d-%s" % (w_, burst, lose)), actions=acts))
+    # Family 'recv-too-small': message mode, a message of 2..5 fragments has arrived completely; the application offers buffers that
+    # are too small -- shorter than a fragment, exactly a fragment, between one and all fragments, one byte short -- and gets -2 every
+    # time WITHOUT any effect; then a buffer that fits returns the whole message, followed by the next message.
+    for frags in (2, 3, 5):
+        for last in (1, 32):
+            mss = 32
+            total = (frags - 1) * mss + last
+            cfg = dict(mtu=24 + mss, sndwnd=32, rcvwnd=32, nodelay=1, interval=10, resend=0, nc=1, stream=0, acknodelay=0)
+            acts = [dict(name="Send", e=1, a=total), dict(name="Send", e=1, a=7), dict(name="Flush", e=1)] + [dict(name="DeliverAny")] * (frags + 1)
+            for bl in sorted({1, mss - 1, mss, mss + 1, 2 * mss, total - mss, total - 1}):
+                if 0 < bl < total:
+                    acts.append(dict(name="Recv", e=2, a=bl))
+            acts += [dict(name="Recv", e=2, a=total), dict(name="Recv", e=2, a=6), dict(name="Recv", e=2, a=7), dict(name="Settle", a=0)]
+            scripts.append(dict(meta=dict(cfg=cfg, label="recv-too-small-%d-%d" % (frags, last)), actions=acts))
+    # Family 'loss-and-fast': congestion control on. A segment is lost, retransmitted early / fast (its marker then excludes it from
+    # further fast retransmission), and that retransmission is lost too; a later segment is lost as well and an acknowledgement for
+    # a still later one arrives just when the first segment's retransmission timer expires: ONE flush declares a timeout loss and
+    # makes a fast/early retransmission. The timeout must win (cwnd = 1): the next flush, with data waiting and the oldest segment
+    # still unacknowledged, admits nothing.
+    for resend in (2, 3):
+        for nodelay in (0, 1):
+            mss = 32
+            cfg = dict(mtu=24 + mss, sndwnd=32, rcvwnd=32, nodelay=nodelay, interval=10, resend=resend, nc=0, stream=0, acknodelay=1)
+            S, F, D, X = dict(name="Send", e=1, a=mss), dict(name="Flush", e=1), dict(name="DeliverAny"), dict(name="DropAny")
+            minrto = 30 if nodelay else 100
+
+            def T(ms):
+                return dict(name="Tick", a=ms)
+            acts = [S, F, F, D, D, T(100),              # sn0 sent and acknowledged (first RTT sample, cwnd 2)
+                    S, S, F, X, D, D,                   # sn1 lost, sn2 delivered, its ack comes back: sn1 has been skipped once
+                    T(10), F, X,                        # sn1 retransmitted early (its marker excludes it from now on) -- lost again
+                    T(20), S, S, F, X, D,               # two more: sn3 lost, sn4 delivered; its ack stays in flight
+                    T(minrto - 20), D, F,               # ... until sn1's timer has expired: timeout loss of sn1 + early retransmission of sn3 in ONE flush
+                    S, T(10), F, T(10), F,              # data waiting, oldest segment still unacknowledged: nothing may be admitted
+                    dict(name="Settle", a=0)]
+            scripts.append(dict(meta=dict(cfg=cfg, label="loss-and-fast-%d-%d" % (resend, nodelay)), actions=acts))
     with open(path, "w") as f:
         for sc in scripts:
             f.write(json.dumps(sc) + "\n")
